@@ -25,8 +25,10 @@ try:
             p = subprocess.run(["./check", pid, "--tier", tier], cwd=os.path.dirname(os.path.dirname(os.path.abspath(__file__))),
                                env=env, stdout=subprocess.PIPE, stderr=subprocess.PIPE, text=True)
             lines = [l for l in p.stdout.splitlines() if l.startswith(("VIOLATION", "KNOWN-FINDING", "OK "))]
-            verdict = "CAUGHT" if p.returncode != 0 and any(l.startswith("VIOLATION") for l in lines) else ("missed" if p.returncode == 0 else "ERROR rc=%d" % p.returncode)
-            print("%s seed=%s %s (%.0fs) %s" % (pid, sd, verdict, time.time() - t, " | ".join(lines[:3])))
+            viol = [l for l in lines if l.startswith("VIOLATION")]
+            concrete = [l for l in viol if not l.rstrip().endswith("no-failing-input-found")]
+            verdict = "CAUGHT" if p.returncode != 0 and viol else ("missed" if p.returncode == 0 else "ERROR rc=%d" % p.returncode)
+            print("%s seed=%s %s (%.0fs) violations=%d concrete=%d %s" % (pid, sd, verdict, time.time() - t, len(viol), len(concrete), " | ".join(viol[:2])))
             res.append((pid, sd, verdict, lines))
 finally:
     subprocess.call(["git", "-C", "/repo", "worktree", "remove", "--force", wt], stdout=subprocess.DEVNULL, stderr=subprocess.DEVNULL)
